@@ -64,4 +64,12 @@ LEVELS = {
         "text": "Proof (Coq) over the auditor model: every accepted single-epoch proof has pairwise prefix-free node labels (no shadowing, duplicated or overlapping node set is accepted - the check added by the fix), inconsistent hash/epoch/proof lists are rejected, and the whole list of root hashes is determined by the proof (replacing any hash makes verification fail). The auditor (rebuild in auditor mode, both comparisons, the prefix-free check) is tied to the code on adversarial proofs with freely chosen end hashes; the defect that let a server drop committed leaves was found by this check and repaired.",
         "note": TB + "PARTIAL: the semantic step (prefix-free + rebuild = canonical trie => every earlier commitment survives) is not yet a theorem; it is decided per run by the ground-truth oracle on the implementation and the rebuild correspondence.",
     },
+    "C06": {
+        "text": "Machine-checked theorem for ALL lookup proofs (arbitrary bytes in every field): against the root hash of a well-formed tree that holds, at the queried label's VRF labels, exactly the prescribed fresh leaves and the stale leaves of all superseded versions, lookup verification accepts only (latest version, its value, its epoch) - or exhibits a hash collision (experimental configuration: or a zero-digest preimage). The Binding premise is proved for both real configurations; VRF uniqueness is an explicit premise. The verifier model is tied to the code on 400+ adversarial proofs per run assembled with the real key and tree, each VRF check evaluated by the real primitive.",
+        "note": TB + "Premises: VrfUnique; honest tree (validated for the code by the full-state correspondence of C01). Hash assumptions only as the disjunct Bad.",
+    },
+    "C07": {
+        "text": "Machine-checked theorem: in Default mode a verifying COMPLETE history proof yields exactly the label's true account newest first (nothing hidden at either end, no gaps, duplicates, reordering, wrong values or epochs) or exhibits a collision; and for every parameter each accepted entry is a true version with its true value and epoch. Uses the marker theorem (n+1 is always a future marker) and non-membership soundness. Verifier model tied to the code on adversarial histories incl. tombstones and late/missing stale markers; known finding K2 (tombstoned version 1 carries an unauthenticated epoch) is reproduced on the real code and listed.",
+        "note": TB + "PARTIAL: MostRecent-N exactness, the AllowMissingValues statement outside K2 and the late-stale-marker rejection are decided by correspondence + oracle.",
+    },
 }
